@@ -378,6 +378,28 @@ def _spec_literals(fa, spec):
     return out
 
 
+def _visit_unit(ck):
+    """_visit_dependency together with the helpers of its class it was split into (methods of HashRule that it calls,
+    transitively, other than the rule classes' own protocol): the rules about the visit reason over all of them."""
+    root = FA(ck, CH + ".HashRule._visit_dependency")
+    cls = ck.repo.cls(CH + ".HashRule")
+    unit, names, work = [root], {root.fi.name}, [root]
+    while work:
+        cur = work.pop()
+        for c in cur.calls():
+            nm = A.call_attr(c)
+            rc = A.call_recv(c)
+            if nm in names or nm not in cls.methods or nm in ("collect_transitive_dependencies", "try_resolve", "compute_hash", "did_change", "clone", "describe"):
+                continue
+            if not (isinstance(rc, ast.Name) and rc.id in ("HashRule", "cls", "self")):
+                continue
+            fx = FA(ck, cls.methods[nm])
+            names.add(nm)
+            unit.append(fx)
+            work.append(fx)
+    return unit
+
+
 def _reads_attr(fa, expr, attr, at=None):
     """Does the value of `expr` derive from `<something>.attr` / getattr(<something>, 'attr'[, default])?"""
     for n in _flow(fa, expr, at).values():
@@ -837,8 +859,8 @@ def check_descent_complete(ck, R):
     ck.ob(R, g.key(None, "adds-self"), okg, "variable rules always join the rule set" if okg else "a variable rule can be left out of the rule set", g.where())
     # the traversal's parameters other than the accumulator are read-only (mutating the shared
     # scope / blacklist makes the rule set depend on the visiting order of a set)
-    for q in [c.qual + ".collect_transitive_dependencies" for c in hash_rule_classes(ck)] + [CH + ".HashRule._visit_dependency"]:
-        f = ck.repo.try_func(q)
+    for q in [c.qual + ".collect_transitive_dependencies" for c in hash_rule_classes(ck)] + [fx_.fi for fx_ in _visit_unit(ck)]:
+        f = ck.repo.try_func(q) if isinstance(q, str) else q
         if f is None:
             continue
         fx = FA(ck, f)
@@ -848,23 +870,53 @@ def check_descent_complete(ck, R):
         ck.ob(R, fx.key(None, "params-read-only"), not bad, "scope and blacklist are only read" if not bad else
               "`%s` mutates a traversal parameter shared by the whole descent: whether a helper gets a rule then depends on whether it is "
               "visited before or after (set iteration order, i.e. the hash seed)" % A.short(bad[0], 60), fx.where(bad[0] if bad else None))
-    # _visit_dependency: every resolved rule is descended into before returning
-    v = FA(ck, CH + ".HashRule._visit_dependency")
-    colls = v.nodes_all(v.calls("collect_transitive_dependencies"))
-    rule_tests = [x for x in v.cfg.nodes if x.kind == "test" and isinstance(x.ast, ast.Compare) and len(x.ast.ops) == 1 and isinstance(x.ast.ops[0], ast.IsNot)
-                  and A.norm(x.ast.comparators[0]) == "None" and isinstance(x.ast.left, ast.Name) and "call:resolve_symbol" in v.df.deps(x.ast.left, x.id)]
-    ck.need(len(rule_tests) >= 2, "_visit_dependency: `if rule is not None` sites not found")
-    for t in rule_tests:
-        starts = [d for (d, l) in v.cfg.succ[t.id] if l == "T"]
-        live = v.cfg.reach(starts, removed=colls)
-        ok = v.cfg.exit not in live
-        ck.ob(R, v.key(t.ast, "descend-before-return"), ok, "a resolved rule is descended into before returning" if ok else
-              "a resolved rule can be dropped without collect_transitive_dependencies: its subtree does not version the caller", v.where(t.ast))
-    for c in v.calls("collect_transitive_dependencies"):
-        okc = A.norm(A.kwarg(c, "result")) == "result" and A.norm(A.kwarg(c, "root_fn")) == "root_fn" and A.norm(A.kwarg(c, "package_scope")) == "package_scope"
-        ck.ob(R, v.key(c, "args"), okc, "the same result set / root / scope are passed down" if okc else
-              "the descent does not pass down (result, root_fn, package_scope)", v.where(c))
-    rs = v.fi.nested.get("resolve_symbol")
+    # _visit_dependency (with the helpers it may have been split into): every resolved rule is descended into
+    # before returning.  A helper may instead hand the rule back to its caller, which then has to descend.
+    unit = _visit_unit(ck)
+    v = unit[0]
+    helper_names = {fx.fi.name for fx in unit[1:]}
+    n_tests = 0
+    for fx in unit:
+        colls = fx.nodes_all(fx.calls("collect_transitive_dependencies"))
+        rule_tests = []
+        for x in fx.cfg.nodes:
+            if x.kind == "test" and isinstance(x.ast, ast.Compare) and len(x.ast.ops) == 1 and isinstance(x.ast.ops[0], (ast.IsNot, ast.Is)) \
+                    and A.is_none(x.ast.comparators[0]) and isinstance(x.ast.left, ast.Name) and x.id in fx.cfg.reachable_nodes():
+                d_ = fx.df.deps(x.ast.left, x.id)
+                if "call:resolve_symbol" in d_ or any(("call:" + h_) in d_ for h_ in helper_names):
+                    rule_tests.append(x)
+        n_tests += len(rule_tests)
+        for t in rule_tests:
+            some = "T" if isinstance(t.ast.ops[0], ast.IsNot) else "F"
+            starts = [d for (d, l) in fx.cfg.succ[t.id] if l == some]
+            handed_back = []
+            if fx is not v:
+                # `return <the tested rule>`: the caller gets it
+                handed_back = [i_ for r_ in fx.returns() if isinstance(r_.value, ast.Name) and r_.value.id == t.ast.left.id
+                               for i_ in fx.nodes(r_) if fx.df.same_defs(t.ast.left.id, t.id, i_)]
+            live = fx.cfg.reach(starts, removed=set(colls) | set(handed_back))
+            ok = fx.cfg.exit not in live
+            ck.ob(R, fx.key(t.ast, "descend-before-return"), ok, "a resolved rule is descended into before returning" if ok else
+                  "a resolved rule can be dropped without collect_transitive_dependencies: its subtree does not version the caller", fx.where(t.ast))
+        # a rule handed back by a helper must be looked at: after the call, the exit is reached only through
+        # the descent or through the 'no rule' outcome of a test on the result
+        for c in [c for c in fx.calls() if A.call_attr(c) in helper_names]:
+            hfa = [h_ for h_ in unit if h_.fi.name == A.call_attr(c)][0]
+            if not any(r_.value is not None and not A.is_none(r_.value) for r_ in hfa.returns()):
+                continue
+            none_edges = {(t.id, "F" if isinstance(t.ast.ops[0], ast.IsNot) else "T") for t in rule_tests}
+            live = fx.cfg.reach(fx.nodes(c), removed=colls, edge_ok=lambda s_, d_, l_: (s_, l_) not in none_edges, include_start=False)
+            ok = fx.cfg.exit not in live
+            ck.ob(R, fx.key(c, "descend-before-return"), ok, "the rule found by %s is descended into" % A.call_attr(c) if ok else
+                  "the rule found by %s can be dropped without collect_transitive_dependencies" % A.call_attr(c), fx.where(c))
+        for c in fx.calls("collect_transitive_dependencies"):
+            okc = A.norm(A.kwarg(c, "result")) == "result" and A.norm(A.kwarg(c, "root_fn")) == "root_fn" and A.norm(A.kwarg(c, "package_scope")) == "package_scope"
+            ck.ob(R, fx.key(c, "args"), okc, "the same result set / root / scope are passed down" if okc else
+                  "the descent does not pass down (result, root_fn, package_scope)", fx.where(c))
+    ck.need(n_tests >= 2, "_visit_dependency: `if rule is not None` sites not found")
+    rs = None
+    for fx in unit:
+        rs = rs or fx.fi.nested.get("resolve_symbol")
     ck.need(rs is not None, "_visit_dependency.resolve_symbol not found")
     rsa = FA(ck, rs)
     # every decision resolve_symbol takes is either "is the object (identically) one of the blacklist" or
@@ -1638,78 +1690,78 @@ def check_every_symbol_watched(ck, R):
 def check_resolver_closures(ck, R):
     ck.rule(R, "resolvers re-resolve from the root: a function passed as a rule's resolver closes over the global table "
                "and name parts only, never over an object obtained by evaluating the dotted chain", 2)
-    v = FA(ck, CH + ".HashRule._visit_dependency")
-    # names derived from evaluation: assigned from a resolver()/getattr()/subscript of the global table, or from `ref`
-    derived = set()
-    changed = True
-    assigns = [(s, t.id) for s in v.stmts(ast.Assign) for t in s.targets if isinstance(t, ast.Name)]
-    while changed:
-        changed = False
-        for (s, name) in assigns:
-            if name in derived:
-                continue
-            val = s.value
-            is_eval = False
-            for n in ast.walk(val):
-                if isinstance(n, ast.Call) and (A.call_attr(n) in ("getattr",) or (isinstance(n.func, ast.Name) and n.func.id.startswith("resolver")) or A.call_attr(n) == "memento_fn_resolver"):
-                    is_eval = True
-                if isinstance(n, ast.Subscript) and A.norm(n.value) == "global_table":
-                    is_eval = True
-                if isinstance(n, ast.Name) and n.id in derived:
-                    is_eval = True
-            if is_eval:
-                derived.add(name)
-                changed = True
     n_res = 0
-    for name, sub in v.fi.nested.items():
-        if not name.startswith("resolver"):
-            continue
-    # all nested defs named like resolvers (there can be several with the same name: walk the AST)
-    for node in ast.walk(v.node):
-        if isinstance(node, ast.FunctionDef) and node is not v.node and "resolver" in node.name and node.name != "resolve_symbol":
-            n_res += 1
-            params = {a.arg for a in node.args.args + node.args.kwonlyargs}
-            local = set(params)
-            for s in ast.walk(node):
-                if isinstance(s, ast.Assign):
-                    for t in s.targets:
-                        if isinstance(t, ast.Name):
-                            local.add(t.id)
-                if isinstance(s, (ast.For, ast.comprehension)) and isinstance(s.target, ast.Name):
-                    local.add(s.target.id)
-            free = {n.id for b in node.body for n in ast.walk(b) if isinstance(n, ast.Name) and isinstance(n.ctx, ast.Load)} - local
-            bad = sorted(free & derived)
-            ck.ob(R, "%s::def %s@%s" % (v.qual, node.name, "loop" if v.enclosing(node, ast.For) is not None else "top"), not bad,
-                  "resolver re-resolves from the global table" if not bad else
-                  "resolver closes over %s, an object obtained while evaluating the chain: when an intermediate object is replaced "
-                  "(class re-executed, module attribute rebound) the rule keeps looking at the old object and did_change never fires" % bad,
-                  A.loc(v.fi, node))
+    for v in _visit_unit(ck):
+        # names derived from evaluation: assigned from a resolver()/getattr()/subscript of the global table, or from `ref`
+        derived = set()
+        changed = True
+        assigns = [(s, t.id) for s in v.stmts(ast.Assign) for t in s.targets if isinstance(t, ast.Name)]
+        while changed:
+            changed = False
+            for (s, name) in assigns:
+                if name in derived:
+                    continue
+                val = s.value
+                is_eval = False
+                for n in ast.walk(val):
+                    if isinstance(n, ast.Call) and (A.call_attr(n) in ("getattr",) or (isinstance(n.func, ast.Name) and n.func.id.startswith("resolver")) or A.call_attr(n) == "memento_fn_resolver"):
+                        is_eval = True
+                    if isinstance(n, ast.Subscript) and A.norm(n.value) == "global_table":
+                        is_eval = True
+                    if isinstance(n, ast.Name) and n.id in derived:
+                        is_eval = True
+                if is_eval:
+                    derived.add(name)
+                    changed = True
+        for name, sub in v.fi.nested.items():
+            if not name.startswith("resolver"):
+                continue
+        # all nested defs named like resolvers (there can be several with the same name: walk the AST)
+        for node in ast.walk(v.node):
+            if isinstance(node, ast.FunctionDef) and node is not v.node and "resolver" in node.name and node.name != "resolve_symbol":
+                n_res += 1
+                params = {a.arg for a in node.args.args + node.args.kwonlyargs}
+                local = set(params)
+                for s in ast.walk(node):
+                    if isinstance(s, ast.Assign):
+                        for t in s.targets:
+                            if isinstance(t, ast.Name):
+                                local.add(t.id)
+                    if isinstance(s, (ast.For, ast.comprehension)) and isinstance(s.target, ast.Name):
+                        local.add(s.target.id)
+                free = {n.id for b in node.body for n in ast.walk(b) if isinstance(n, ast.Name) and isinstance(n.ctx, ast.Load)} - local
+                bad = sorted(free & derived)
+                ck.ob(R, "%s::def %s@%s" % (v.qual, node.name, "loop" if v.enclosing(node, ast.For) is not None else "top"), not bad,
+                      "resolver re-resolves from the global table" if not bad else
+                      "resolver closes over %s, an object obtained while evaluating the chain: when an intermediate object is replaced "
+                      "(class re-executed, module attribute rebound) the rule keeps looking at the old object and did_change never fires" % bad,
+                      A.loc(v.fi, node))
+        # a resolver tells "the name is gone" apart from "the name is bound to None": None is a legal tracked value, so a
+        # resolver that answers None for a missing name makes the deletion of a None-valued variable invisible
+        for node in ast.walk(v.node):
+            if isinstance(node, ast.FunctionDef) and node is not v.node and "resolver" in node.name and node.name not in ("resolve_symbol", "memento_fn_resolver"):
+                nones = []
+                for x in ast.walk(node):
+                    if isinstance(x, ast.IfExp) and A.is_none(x.orelse) and isinstance(x.test, ast.Compare) and isinstance(x.test.ops[0], ast.In):
+                        nones.append(x)
+                    if isinstance(x, ast.Call) and A.call_attr(x) == "getattr" and len(x.args) == 3 and A.is_none(x.args[2]):
+                        nones.append(x)
+                    if isinstance(x, ast.Call) and A.call_attr(x) == "get" and "global_table" in A.norm(A.call_recv(x)) and (len(x.args) == 1 or A.is_none(x.args[1])):
+                        nones.append(x)
+                ck.ob(R, "%s::def %s@%s::missing-is-not-none" % (v.qual, node.name, "loop" if v.enclosing(node, ast.For) is not None else "top"), not nones,
+                      "a missing name resolves to a sentinel of its own" if not nones else
+                      "`%s`: the resolver answers None for a name that no longer exists, the same as for a name bound to None: deleting a tracked variable "
+                      "whose value is None leaves the cached version in place although a fresh computation sees an undefined symbol" % (A.short(nones[0], 60) if nones else ""),
+                      A.loc(v.fi, nones[0] if nones else node))
+        # rules that watch for a symbol to appear must also look it up from the root each time
+        for c in v.calls("UndefinedSymbolHashRule"):
+            base = c.args[0] if c.args else A.kwarg(c, "ref")
+            rr = A.kwarg(c, "ref_resolver")
+            pinned = isinstance(base, ast.Name) and base.id in derived and rr is None
+            ck.ob(R, v.key(c, "undefined-symbol-base"), not pinned, "the undefined-symbol rule re-resolves the object it watches" if not pinned else
+                  "the undefined-symbol rule is given `%s`, an object obtained while evaluating the chain, and no resolver: after `helper = other` the rule "
+                  "still asks the OLD object whether the attribute appeared, so the version never changes" % base.id, v.where(c))
     ck.need(n_res >= 2, "_visit_dependency: resolver closures not found")
-    # a resolver tells "the name is gone" apart from "the name is bound to None": None is a legal tracked value, so a
-    # resolver that answers None for a missing name makes the deletion of a None-valued variable invisible
-    for node in ast.walk(v.node):
-        if isinstance(node, ast.FunctionDef) and node is not v.node and "resolver" in node.name and node.name not in ("resolve_symbol", "memento_fn_resolver"):
-            nones = []
-            for x in ast.walk(node):
-                if isinstance(x, ast.IfExp) and A.is_none(x.orelse) and isinstance(x.test, ast.Compare) and isinstance(x.test.ops[0], ast.In):
-                    nones.append(x)
-                if isinstance(x, ast.Call) and A.call_attr(x) == "getattr" and len(x.args) == 3 and A.is_none(x.args[2]):
-                    nones.append(x)
-                if isinstance(x, ast.Call) and A.call_attr(x) == "get" and "global_table" in A.norm(A.call_recv(x)) and (len(x.args) == 1 or A.is_none(x.args[1])):
-                    nones.append(x)
-            ck.ob(R, "%s::def %s@%s::missing-is-not-none" % (v.qual, node.name, "loop" if v.enclosing(node, ast.For) is not None else "top"), not nones,
-                  "a missing name resolves to a sentinel of its own" if not nones else
-                  "`%s`: the resolver answers None for a name that no longer exists, the same as for a name bound to None: deleting a tracked variable "
-                  "whose value is None leaves the cached version in place although a fresh computation sees an undefined symbol" % (A.short(nones[0], 60) if nones else ""),
-                  A.loc(v.fi, nones[0] if nones else node))
-    # rules that watch for a symbol to appear must also look it up from the root each time
-    for c in v.calls("UndefinedSymbolHashRule"):
-        base = c.args[0] if c.args else A.kwarg(c, "ref")
-        rr = A.kwarg(c, "ref_resolver")
-        pinned = isinstance(base, ast.Name) and base.id in derived and rr is None
-        ck.ob(R, v.key(c, "undefined-symbol-base"), not pinned, "the undefined-symbol rule re-resolves the object it watches" if not pinned else
-              "the undefined-symbol rule is given `%s`, an object obtained while evaluating the chain, and no resolver: after `helper = other` the rule "
-              "still asks the OLD object whether the attribute appeared, so the version never changes" % base.id, v.where(c))
 
 
 def check_field_call_lint(ck, R):
